@@ -143,3 +143,10 @@ def _r17_5(ctx):
 # sensitivity pack (thorough tier): each seeded edit must be reported by the named rule instance
 MUTANTS = [{'name': 'seeded-C17-a', 'patch': 'C17-a/patch.diff', 'expect': ('R17.3', 'index_transaction_output_script_pubkeys', 'SCRIPT_PUBKEY_TO_OUTPOINT')},
            {'name': 'seeded-C17-b', 'patch': 'C17-b/patch.diff', 'expect': ('R17.5', 'open_with_event_sender', 'first_index_height')}]
+
+
+# behaviour-preserving pack (thorough tier)
+NEUTRAL = [
+  {'name': 'script bytes bound to a local', 'file': 'src/index/updater.rs', 'old': '      output_utxo_entries[vout].push_script_pubkey(txout.script_pubkey.as_bytes(), self.index);\n    }\n  }', 'new': '      let script = txout.script_pubkey.as_bytes();\n      output_utxo_entries[vout].push_script_pubkey(script, self.index);\n    }\n  }'},
+  {'name': 'commit: satpoint literal inlined', 'file': 'src/index/updater.rs', 'old': '            let satpoint = SatPoint { outpoint, offset };\n            sequence_number_to_satpoint.insert(sequence_number, &satpoint.store())?;', 'new': '            sequence_number_to_satpoint.insert(sequence_number, &SatPoint { outpoint, offset }.store())?;'},
+]
